@@ -46,6 +46,18 @@ Check == (k >= 1) =>
                   /\ \A i \in 1..Len(E) : \A j \in 1..Len(L) : E[i].name = L[j].name => (E[i].ino = L[j].ino /\ E[i].type = L[j].type)
                   /\ \A i, j \in 1..Len(E) : i # j => E[i].next # E[j].next
         IN  ok \/ TLCSet(1, Append(TLCGet(1), [k |-> k, why |-> "stream"]))
+    ELSE IF r.kind = "callrm" THEN
+        \* entries were removed since the listing began (r.removed).  Whether a removed entry still shows up is the host's business; every
+        \* entry that was NOT removed and lies behind the cookie's position is delivered exactly once, in the order of the stream (the buffer
+        \* of such a call holds them all)
+        LET E == Stream(k).entries
+            gone(n) == \E j \in 1..Len(r.removed) : r.removed[j] = n
+            from == StartIndex(E, r.cookie)
+            want == SelectSeq(SubSeq(E, from, Len(E)), LAMBDA x : ~gone(x.name))
+            got  == SelectSeq(r.recs, LAMBDA x : ~gone(x.name))
+        IN  (Len(got) = Len(want) /\ \A i \in 1..Len(got) : got[i].name = want[i].name /\ got[i].ino = want[i].ino /\ got[i].type = want[i].type)
+            \/ TLCSet(1, Append(TLCGet(1), [k |-> k, why |-> "call", expected |-> [used |-> 0, recs |-> [i \in 1..Len(want) |->
+                    [next |-> want[i].next, ino |-> want[i].ino, type |-> want[i].type, namlen |-> Len(want[i].name), name |-> want[i].name]]]]))
     ELSE LET e == Expected(Stream(k).entries, r.buflen, r.cookie)
          IN  (e.used = r.used /\ e.recs = r.recs) \/ TLCSet(1, Append(TLCGet(1), [k |-> k, why |-> "call", expected |-> e]))
 Out == TLCGet("level") >= 0 /\ ndJsonSerialize(IOEnv.OUTFILE, TLCGet(1))
